@@ -103,6 +103,12 @@ theorem json_text_int_roundtrip (i : Int) (rest : Bytes) (hr : JText.NumEnd rest
 theorem json_text_roundtrip (j : Json) (hw : JText.WF j = true) : JText.parseDoc (JText.render j) = some j :=
   JText.parseDoc_render j hw
 
+/-- **whitespace around a document is immaterial**: with any run of space / tab / CR / LF before and after it, the
+    rendered document reads back to the same tree -/
+theorem json_text_whitespace (j : Json) (hw : JText.WF j = true) (pre post : Bytes)
+    (h1 : JText.AllWs pre) (h2 : JText.AllWs post) : JText.parseDoc (pre ++ (JText.render j ++ post)) = some j :=
+  JText.parseDoc_ws_render_ws j hw pre post h1 h2
+
 /-- **byte level, claims**: for every valid claims-set of a built-in profile whose text claims are valid UTF-8, the JSON
     *text* of its encoding (`render`) reads back (`parseDoc`) to the encoded document, and that document decodes
     through the dispatching decoder to the claims-set (up to the container holding the components) -/
